@@ -73,7 +73,11 @@ CHECKS = {
     "C16": dict(
         text="C16_Quiet, C16_Immediate, C04_NoLostWakeup on spec/Xcm.tla for all awaited conditions; on the real code after every step "
              "poll(xcm_fd) of both endpoints, the epoll registrations seen through epoll_ctl and the kernel's own poll() result are "
-             "recorded and compared with the model's mask/bell and Readable(); fd stability and 'only readable' are history checks.",
+             "recorded and compared with the model's mask/bell and Readable(); fd stability and 'only readable' are history checks. "
+             "Establishment-phase scenarios (server sockets idle / pending, an idle connection looked at after the connect time-out). "
+             "Underneath: spec/XPoll.tla (libxcm/core/xpoll.c as a step function; KernelView, Readable, PoolUser, Ids, Frugal) "
+             "model-checked and replayed on the real xpoll.c / active_fd.c, with the kernel's own report of the epoll interest list "
+             "validated call by call against the same step function (spec/XPollTrace.tla).",
         ref="5/C16", tech="TLA+ model checking (TLC) + trace validation of readiness after every step"),
     "C17": dict(
         text="C17_Counters / C17_Quiescent on spec/Xcm.tla (tcp, btcp, ux); on the real code all eight counters of both endpoints are "
